@@ -22,6 +22,7 @@ from unittest import mock
 import asynq
 from asynq import mock_ as asynq_mock  # asynq.mock is the attribute name of this module
 from asynq import asynq as asynq_deco
+from asynq.futures import ConstFuture, FutureBase
 
 MODNAME = "c19_scratch_mod"
 
@@ -50,9 +51,21 @@ class State(object):
         self.values = {}   # object id -> Val
         self.keep = []
         self.orig = {}
+        self.nact = {}     # patcher -> number of activations so far (generated mocks: one fresh mock per activation)
+        self.futk = set()  # object ids of replacements that return an asynq future
 
 
 ST = State()
+
+
+def want_result(k, x, y):
+    """what every convention must hand back after reaching object k with (x, y=y)"""
+    return ["fut", ["r", k, x, y]] if k in ST.futk else ["r", k, x, y]
+
+
+def norm_result(r):
+    """a future handed back by a replacement is compared by its value (and by being a future)"""
+    return ["fut", r.value()] if isinstance(r, FutureBase) else r
 
 
 def rec(k, a, kw):
@@ -151,6 +164,11 @@ def replacement_object(repl, k):
         def replacement(*a, **kw):
             return rec(k, a, kw)
         o = replacement
+    elif repl == "futfn":
+        def replacement(*a, **kw):
+            return ConstFuture(rec(k, a, kw))       # the replacement's result IS a future: handed back as is by every convention
+        ST.futk.add(k)
+        o = replacement
     elif repl == "boundmeth":
         ST.keep.append(Recorder(k))
         o = ST.keep[-1].method
@@ -169,10 +187,13 @@ def replacement_object(repl, k):
 def make_patcher(target, api, repl, k, share):
     name, holder, attr = TARGETS[target]
     args, kwargs = [], {}
-    if repl in ("function", "boundmeth", "callobj", "value", "classmethod", "staticmethod"):
+    if repl in ("function", "futfn", "boundmeth", "callobj", "value", "classmethod", "staticmethod"):
         args = [replacement_object(repl, share or k)]
     elif repl == "newcallable":
-        kwargs = {"new_callable": lambda: mock.MagicMock(side_effect=lambda *a, **kw: rec(k, a, kw))}
+        def factory():          # called by every activation: each generates a fresh mock (reach = k + 100 * activation number)
+            ST.nact[k] = n = ST.nact.get(k, 0) + 1
+            return mock.MagicMock(side_effect=lambda *a, **kw: rec(k + 100 * n, a, kw))
+        kwargs = {"new_callable": factory}
     if api == "str":
         return asynq_mock.patch(name, *args, **kwargs)
     return asynq_mock.patch.object(holder(ST.mod), attr, *args, **kwargs)
@@ -180,7 +201,9 @@ def make_patcher(target, api, repl, k, share):
 
 def configure(m, P):
     if P["repl"] == "default" and m is not None:
-        m.side_effect = lambda *a, **kw: rec(P["k"], a, kw)
+        k = P["k"]
+        ST.nact[k] = n = ST.nact.get(k, 0) + 1          # the mock THIS activation generated
+        m.side_effect = lambda *a, **kw: rec(k + 100 * n, a, kw)
 
 
 def slot_token(target):
@@ -259,9 +282,9 @@ def do_call(target, path, conv, x, y):
     c = ST.calls[0]
     if conv == "gather":
         same = all(d["reach"] == c["reach"] and d["bound"] == c["bound"] and d["y"] == c["y"] for d in ST.calls)
-        ok = same and sorted(d["x"] for d in ST.calls) == xs and r == [["r", c["reach"], xj, y] for xj in xs]
+        ok = same and sorted(d["x"] for d in ST.calls) == xs and [norm_result(z) for z in r] == [want_result(c["reach"], xj, y) for xj in xs]
         return {"conv": conv, "reach": c["reach"], "bound": c["bound"], "x": x, "y": c["y"], "result": "agrees" if ok else repr((r, ST.calls))}
-    ok = r == ["r", c["reach"], x, y]
+    ok = norm_result(r) == want_result(c["reach"], x, y)
     return {"conv": conv, "reach": c["reach"], "bound": c["bound"], "x": c["x"], "y": c["y"], "result": "agrees" if ok else repr(r)}
 
 
@@ -294,7 +317,7 @@ def do_async_pair(target, path, x1, x2, y):
         else:
             c = cs[0]
             same = all(d["reach"] == c["reach"] and d["bound"] == c["bound"] and d["y"] == c["y"] for d in cs)
-            ok = same and sorted(d["x"] for d in cs) == want_xs and list(r) == [["r", c["reach"], xj, y] for xj in want_xs]
+            ok = same and sorted(d["x"] for d in cs) == want_xs and [norm_result(z) for z in r] == [want_result(c["reach"], xj, y) for xj in want_xs]
             out.append({"conv": conv, "reach": c["reach"], "bound": c["bound"], "x": x1 if conv == "asyncio" else x2, "y": c["y"],
                         "result": "agrees" if ok else repr((r, cs))})
     return out[0], out[1]
